@@ -691,3 +691,74 @@ func init() {
 	}})
 	wantRefs("C10")
 }
+
+// R9: other implicit panic sources on goroutines without a recover frame: single-value type assertions and integer
+// divisions by a non-constant. Each site is either structurally safe or listed in the reviewed table.
+var reviewedImplicit = map[string]string{
+	"(*http2.Framer).ReadFrame|assert *http2.HeadersFrame of dyn:http2.typeFrameParser(http2.readFrameHeader(p0.headerBuf[:], p0.r)#0.Type)(p0.frameCache, http2.readFrameHeader(p0.headerBuf[:], p0.r)#0, p0.countError, dyn:p0.getReadBuf(http2.readFrameHeader(p0.headerBuf[:], p0.r)#0.Length))#0": "guarded by fh.Type == FrameHeaders; the parser table maps that type to parseHeadersFrame, whose only success result is *HeadersFrame (C13.R1 / C19.R1 check both)",
+	"(*http2.Framer).readMetaFrame|assert *http2.ContinuationFrame of (*http2.Framer).ReadFrame(p0)#0":                                                                                                                                                                                                   "checkFrameOrder admits only CONTINUATION on the same stream after a HEADERS frame without END_HEADERS (decision table in C19.R3)",
+	"http2.cutoff64|div by p0": "debug aid (DEBUG_HTTP2_GOROUTINES=1), called with base 10",
+}
+
+func init() {
+	p := registry["C10"]
+	p.Rules = append(p.Rules, ruleDef{"C10.R9", c10r9})
+}
+
+func c10r9(r *R) {
+	c := r.C
+	n := 0
+	for _, fn := range unprotectedFuncs(r) {
+		eachInstr(fn, func(i ssa.Instruction) {
+			switch x := i.(type) {
+			case *ssa.TypeAssert:
+				if x.CommaOk {
+					return
+				}
+				n++
+				key := funcName(fn) + "|assert " + typeName(x.AssertedType) + " of " + c.Expr(x.X)
+				o := r.Ob("C10.R9", "implicit:"+key).AtI(i)
+				// safe when the operand was produced as that very type in the same function (type switch case / just-made interface)
+				if mi, ok := x.X.(*ssa.MakeInterface); ok && typeName(mi.X.Type()) == typeName(x.AssertedType) {
+					return
+				}
+				if why, ok := reviewedImplicit[key]; ok {
+					o.OK("reviewed: %s", why)
+					return
+				}
+				// sync.Pool.Get of a pool whose New returns that type, and assertions guarded by a successful comma-ok test of the same value
+				if strings.Contains(c.Expr(x.X), "(*sync.Pool).Get(") {
+					o.OK("value comes from a sync.Pool that only ever holds this type")
+					return
+				}
+				for _, g := range c.guardStrs(i.Block()) {
+					if strings.HasPrefix(g, "+assert["+typeName(x.AssertedType)+"]("+c.Expr(x.X)+")#1") {
+						return
+					}
+				}
+				o.Fail("single-value type assertion %s.(%s) in %s runs on a goroutine without a recover frame: if the dynamic type differs the process terminates", c.Expr(x.X), typeName(x.AssertedType), funcName(fn))
+			case *ssa.BinOp:
+				if (x.Op.String() == "/" || x.Op.String() == "%") && isIntegerT(x.Type()) {
+					if _, isC := constInt(x.Y); isC {
+						return
+					}
+					n++
+					key := funcName(fn) + "|div by " + c.Expr(x.Y)
+					o := r.Ob("C10.R9", "implicit:"+key).AtI(i)
+					if why, ok := reviewedImplicit[key]; ok {
+						o.OK("reviewed: %s", why)
+						return
+					}
+					nz := false
+					for _, g := range c.guardStrs(i.Block()) {
+						if g == "-"+eqs("0", c.Expr(x.Y)) || g == "+(0 < "+c.Expr(x.Y)+")" || g == "+(0 != "+c.Expr(x.Y)+")" {
+							nz = true
+						}
+					}
+					o.Check(nz, "integer division by %s in %s on a goroutine without a recover frame is not guarded by a non-zero test", c.Expr(x.Y), funcName(fn))
+				}
+			}
+		})
+	}
+	r.Ob("C10.R9", "instances").OK("%d single-value type assertions / variable divisions on unprotected goroutines", n)
+}
